@@ -19,6 +19,33 @@ TABLE = {
              "hundred kB; non-UTF-8 strings, ExtendedFloat and >2 GiB files are outside the generator."),
 }
 
+TABLE.update({
+    'C03': dict(
+        technique="property-based testing: Hypothesis files x configurations (memmap, raw_timestamps, path/stream); every "
+                  "access path compared with the model (differential across access paths + model oracle)",
+        text="Generated-input exploration of all documented access paths (eager and lazy: [:], [...], .data, read_data, "
+             "iteration, every integer index, channel and file chunk streams with offsets, unscaled variants) on "
+             "thousands of generated files per run; each path is compared with content known by construction.",
+        note="Trusts vf/encode.py and the model; paths documented as unavailable in a mode are not exercised; chunk "
+             "boundaries themselves are not asserted, only concatenation and offsets."),
+    'C04': dict(
+        technique="property-based testing with per-file exhaustive enumeration of windows, slices and indices; oracle = "
+                  "NumPy indexing on the model array (metamorphic on the eager full read for cut files)",
+        text="For every generated file, every channel of length <= 7 gets ALL (offset,length) windows, ALL slices with "
+             "start/stop in [-len-2,len+2]+None x 7 steps and ALL integer indices, lazily and eagerly, scaled and "
+             "unscaled (millions of requests per quick run); longer channels get drawn requests. Files are biased to "
+             "chunk/segment boundaries, absent channels and truncated final chunks.",
+        note="Trusts NumPy slicing semantics, vf/encode.py; negative offset/length are outside the statement."),
+    'C05': dict(
+        technique="stateful property-based testing: Hypothesis RuleBasedStateMachine over one open file with any number "
+                  "of live channel/file chunk iterators; oracle = model + fresh-file chunk sequence; ddmin of the op list",
+        text="Thousands of generated single-threaded histories (<=30 steps quick, <=50 thorough) interleave index, "
+             "slice, window, partial iteration and next() on live generators; every result is checked against what a "
+             "fresh file yields and all iterators are drained to completion at teardown.",
+        note="Single-threaded only (documented). Trusts vf/encode.py; canonical chunk sequences come from a fresh open "
+             "of the same bytes and are validated against the model."),
+})
+
 PENDING_REASON = "check not built yet in this session (planned in DESIGN.md section 4); not claimed until it runs"
 
 
